@@ -3,7 +3,7 @@ import Tpp.Model.Screen
 /-!
 Driver slice `Screen` (C03, C04).
   `S <bits> ; op ; op …` with ops
-     `cv w h`            a new canvas of that size becomes the current canvas
+     `cv w h`            a new canvas of that size becomes the current canvas (`nc`: constructed in place, at the same address)
      `px x y <element>`  canvas[x][y] = element   (`pi`: via *(begin()+y*w+x), `pr`: via a range-for over the canvas)
      `rz w h`            canvas.resize
      `tsz w h`           terminal.set_size (the terminal itself is resized to w x h as well)
@@ -21,6 +21,8 @@ def rdSOp : Rd (Option SOp) := do
   let w ← Rd.word
   match w with
   | "cv" => do let a ← Rd.int; let b ← Rd.int; return some (.cv a b)
+  -- `nc`: a new canvas object constructed at the address of the old one – for the model simply a new canvas
+  | "nc" => do let a ← Rd.int; let b ← Rd.int; return some (.cv a b)
   | "px" => do let x ← Rd.int; let y ← Rd.int; let e ← rdElement; return some (.px x y e)
   -- the same assignment made through `begin() + y*w + x` (`pi`) or inside a range-for (`pr`): C16 says it is the same cell
   | "pi" => do let x ← Rd.int; let y ← Rd.int; let e ← rdElement; return some (.px x y e)
